@@ -37,7 +37,9 @@ comparator_(comparator),
 allocator_(allocator),
 lg_weight_(lg_weight),
 hra_(hra),
-coin_(false),
+// random initial coin (as in the deserializing constructor): merge() can adopt an odd state_ from the other
+// compactor, and the next compaction then flips this coin without drawing one
+coin_(random_utils::random_bit()),
 sorted_(sorted),
 section_size_raw_(static_cast<float>(section_size)),
 section_size_(section_size),
